@@ -152,7 +152,13 @@ def run_ds(pid, tier, seed, scratch):
             return bad, r.get('distinct', 0), out
         bad, nlines, out = once('a')
         mine = [b for b in bad if b[0].startswith(DS_FORMULAS[pid])]
-        stats['logs'].append({'mode': mode, 'operations': nlines, 'failed_formulas': sorted(set(b[0] for b in mine))})
+        # the segment layout (read/write indexes, capacities of the chunks) is the implementation's business: a difference from
+        # spec/QueueDS.tla is a conformance divergence, not a failure of the property (which is about the order of the elements)
+        conf = [b for b in bad if b[0].startswith('Conf_')]
+        if conf:
+            print('DIVERGENCE property=%s data structure log %s line=%d formula=%s (informational: the recorded operation log is not a behaviour of spec/QueueDS.tla)'
+                  % (pid, conf[0][1], conf[0][2], conf[0][0]), flush=True)
+        stats['logs'].append({'mode': mode, 'operations': nlines, 'failed_formulas': sorted(set(b[0] for b in mine)), 'conformance_divergences': len(conf)})
         if mine:
             bad2, _, out2 = once('b')      # reproduce
             again = [b for b in bad2 if b[0].startswith(DS_FORMULAS[pid])]
